@@ -183,6 +183,9 @@ class MosekWrapper(Wrapper):
         # Create a symmetric matrix in MOSEK
         size = psd_matrix.shape[0]
         self.task.appendbarvars([size])
+        # Index of this matrix among MOSEK's semidefinite variables (the Gram matrix is number 0).
+        # Note it is the order in which the matrices are sent that matters, not the order they were created in.
+        psd_index_in_mosek = self._nb_pep_SDPconstraints_in_mosek - 1
 
         # Store one correspondence constraint per entry of the matrix
         for i in range(psd_matrix.shape[0]):
@@ -200,7 +203,7 @@ class MosekWrapper(Wrapper):
                     -.5 * (i != j) - 1 * (i == j)])  # 1/2 because we have to symmetrize the matrix!
                 # fill the mosek (equality) constraint 
                 self.task.putbaraij(nb_cons, 0, [sym_A1], [1.0])
-                self.task.putbaraij(nb_cons, psd_matrix.counter + 1, [sym_A2], [1.0])
+                self.task.putbaraij(nb_cons, psd_index_in_mosek, [sym_A2], [1.0])
                 self.task.putaijlist(nb_cons + np.zeros(a_i.shape, dtype=int), a_i, a_val)
                 self.task.putconbound(nb_cons, mosek.boundkey.fx, -alpha_val, -alpha_val)
 
